@@ -590,6 +590,7 @@ func (e *Engine) newResult(st *State, rows, last *Term) Value {
 		r.LastID = e.fresh(st, "lastInsertId", SInt)
 		st.assume(Gt(r.LastID, IntLit(0)))
 	}
+	st.addTrace(TraceEv{Kind: "sqlresult", Terms: map[string]Term{"last": r.LastID, "rows": r.Rows}})
 	return VIface{V: VAbs{Kind: "result", ID: e.nextID(), Data: r}}
 }
 
